@@ -240,12 +240,13 @@ H("c09_q_std_messages_plain", "C09", "c09::std_messages_plain", "every standard 
   mem_gb=4, unwind=64, also=["C13"])
 
 # ---------------------------------------------------------------------------- C10 (K-fmt part)
-for u, tier in ((1, "q"), (2, "q"), (3, "q")):
+for u, tier in ((1, "q"), (2, "q"), (3, "t")):
     H(f"c10_{tier}_framing_array_u{u}", "C10", f"c10::framing_array::<{u}, _>",
-      f"0..{u} response units, each with no / one-level / two-level header and 1..3 data elements (bool or character "
-      f"data), through the real message_start / response_unit / header / data / finish / message_end on an ArrayVec: bytes "
+      f"0..{u} response units, each with no / one-level / two-level header and 1..3 data elements (bool, character "
+      f"data, or a one-byte block ending in ';'), through the real message_start / response_unit / header / data / finish / message_end on an ArrayVec: bytes "
       f"== reference framer (';' between units, ',' between data, header + space, one final NL iff output)",
-      f"all scripts of <= {u} units x <= 3 data", cap_s=900, mem_gb=4, unwind=16 * u + 4, sample=(u == 1))
+      f"all scripts of <= {u} units x <= 3 data", cap_s=(900 if tier == "q" else 5400), mem_gb=(5 if u < 3 else 10),
+      unwind=22 * u + 4, sample=(u == 1))
 H("c10_ta_framing_vec_u1", "C10", "c10::framing_vec::<1, _>", "same script on the growable Vec<u8> formatter",
   "all scripts of <= 1 unit x <= 3 data", cap_s=3600, mem_gb=8, unwind=20)
 
@@ -708,8 +709,9 @@ PROPS["C09"] = {
 }
 
 PROPS["C10"] = {
-    "bounds": {"quick": "K-fmt: all scripts of <= 3 response units, each with no / one-level / two-level header and 1..3 "
-                        "data elements, on the ArrayVec formatter",
+    "bounds": {"quick": "K-fmt: all scripts of <= 2 response units (3 in the thorough tier), each with no / one-level / "
+                        "two-level header and 1..3 data elements (bool, character data, a block ending in ';'), on the "
+                        "ArrayVec formatter",
                "thorough": "plus the dispatcher's two loop exits at token level (RL-tok family): every lexable 3-token "
                            "script on a flat tree - message_end exactly once iff some query produced output"},
     "outside": "queries that produce no output at all (the quantifier says 1..n data elements); data element formatting "
